@@ -53,7 +53,8 @@ PREDICATE = {
     "johnson": "Tab.johnsonOk", "prismAntiprism": "Tab.plainOk", "pyramidDipyramid": "Tab.plainOk",
     "science1220869": "Tab.repositoryOk Tables.bySource",
 }
-CHUNK = 24  # entries per generated Lean file (keeps each file's elaboration short)
+CHUNK = 30            # at most this many entries per generated Lean file
+CHUNK_WEIGHT = 14000  # and at most about this many (face, vertex) plane tests (kernel: ~0.4 ms each)
 
 # Hand-entered, independent of /repo AND of Spec/Textbook.lean (compared with it through the driver):
 # name: (V, E, F, {corners: count})
@@ -95,6 +96,7 @@ TEXTBOOK = {
 }
 
 GEN_DIR = os.path.join(LEAN, "CoxeterVerif", "Generated")
+OWN_PREFIXES = ("Tables", "Check")  # the only generated files this module writes or deletes
 OK_MARK = os.path.join(LEAN, ".lake", "c18_generated_ok.sha1")
 
 
@@ -175,10 +177,47 @@ def _entry_lean(ident, name, typ, verts, faces, source, ref):
             "    faces := [%s] }\n" % (ident, _lean_str(name), _lean_str(typ), _lean_str(source), _lean_str(ref), vs, fs))
 
 
-def generate(fams=None):
-    """-> ({relative file name: content}, notes, sizes)"""
+def _chunks(items):
+    """consecutive chunks balanced by kernel work (~ faces x vertices), at most CHUNK entries each"""
+    out, cur, w = [], [], 0
+    for it in items:
+        wi = len(it["faces"]) * len(it["verts"]) + 50
+        if cur and (w + wi > CHUNK_WEIGHT or len(cur) >= CHUNK):
+            out.append(cur)
+            cur, w = [], 0
+        cur.append(it)
+        w += wi
+    if cur or not out:
+        out.append(cur)
+    return out
+
+
+def table_entries(fams=None):
+    """{lean_id: [entry dict]} : JSON read independently + the implementation's face certificate"""
     fams = fams or _families()
     tables, notes = read_json_tables()
+    out = {}
+    for lean_id, fn, _ in TABLES:
+        items = []
+        for j, (name, rec) in enumerate(tables[lean_id]):
+            verts = scaled_vertices(rec, notes, "%s[%s]" % (fn, name))
+            faces = impl_faces(fams[lean_id], name)
+            if faces is None:
+                faces = []
+                notes.append("%s[%s]: get_shape raised; empty certificate" % (fn, name))
+            src = rec.get("source") or ""
+            ref = (rec.get("name") or "") if src else ""
+            typ = rec.get("type")
+            items.append({"ident": "%s_%d" % (lean_id, j), "name": name, "type": typ if isinstance(typ, str) else "",
+                          "verts": verts, "faces": faces, "source": src if isinstance(src, str) else "",
+                          "ref": ref if isinstance(ref, str) else ""})
+        out[lean_id] = items
+    return out, notes
+
+
+def generate(fams=None):
+    """-> ({relative file name: content}, notes, sizes)"""
+    entries, notes = table_entries(fams)
     files = {}
     sizes = {}
     index_imports = []
@@ -186,53 +225,47 @@ def generate(fams=None):
     check_imports = []
     check_thms = []
     for lean_id, fn, _ in TABLES:
-        ents = tables[lean_id]
-        sizes[lean_id] = len(ents)
+        items = entries[lean_id]
+        sizes[lean_id] = len(items)
         cap = lean_id[0].upper() + lean_id[1:]
+        pred = PREDICATE[lean_id]
         chunk_ids = []
-        for c0 in range(0, max(len(ents), 1), CHUNK):
-            k = c0 // CHUNK
+        for k, chunk in enumerate(_chunks(items)):
             mod = "Tables%s_%d" % (cap, k)
             body = ["import CoxeterVerif.Model.Tabulated",
                     "/-! GENERATED by harness/c18.py translate() from coxeter/families/data/%s — do not edit. -/" % fn,
                     "namespace Tables", ""]
-            ids = []
-            for j, (name, rec) in enumerate(ents[c0:c0 + CHUNK]):
-                ident = "%s_%d" % (lean_id, c0 + j)
-                verts = scaled_vertices(rec, notes, "%s[%s]" % (fn, name))
-                faces = impl_faces(fams[lean_id], name)
-                if faces is None:
-                    faces = []
-                    notes.append("%s[%s]: get_shape raised; empty certificate" % (fn, name))
-                src = rec.get("source") or ""
-                ref = (rec.get("name") or "") if src else ""
-                typ = rec.get("type")
-                body.append(_entry_lean(ident, name, typ if isinstance(typ, str) else "", verts, faces,
-                                        src if isinstance(src, str) else "", ref if isinstance(ref, str) else ""))
-                ids.append(ident)
+            for it in chunk:
+                body.append(_entry_lean(it["ident"], it["name"], it["type"], it["verts"], it["faces"], it["source"],
+                                        it["ref"]))
+            ids = [it["ident"] for it in chunk]
             body.append("def %s_chunk%d : List Tab.Entry := [%s]" % (lean_id, k, ", ".join(ids)))
             body.append("\nend Tables\n")
             files[mod + ".lean"] = "\n".join(body)
             chunk_ids.append("%s_chunk%d" % (lean_id, k))
             index_imports.append("import CoxeterVerif.Generated." + mod)
-            # the kernel-evaluated obligation of this chunk
-            pred = PREDICATE[lean_id]
+            # the kernel-evaluated obligations of this chunk: one theorem per entry (bounded memory, and a failing
+            # build names the entry), assembled into the chunk statement
             cmod = "Check%s_%d" % (cap, k)
-            files[cmod + ".lean"] = "\n".join([
-                "import CoxeterVerif.Spec.Textbook",
-                "import CoxeterVerif.Generated." + ("Tables" if lean_id == "science1220869" else mod),
-                "/-! GENERATED by harness/c18.py translate() — do not edit.",
-                "    Kernel evaluation of the C18 obligations of one chunk of %s. -/" % fn,
-                "set_option maxRecDepth 1000000", "namespace Tables", "",
-                "theorem %s_chunk%d_ok : %s_chunk%d.all (%s) = true := by decide +kernel" % (lean_id, k, lean_id, k, pred),
-                "", "end Tables", ""])
+            cb = ["import CoxeterVerif.Spec.Textbook",
+                  "import CoxeterVerif.Generated." + ("Tables" if lean_id == "science1220869" else mod),
+                  "/-! GENERATED by harness/c18.py translate() — do not edit.",
+                  "    Kernel evaluation of the C18 obligations of one chunk of %s. -/" % fn,
+                  "set_option maxRecDepth 1000000", "set_option linter.unusedSimpArgs false", "namespace Tables", ""]
+            for it in chunk:
+                cb.append("/-- %s -/\ntheorem %s_ok : %s %s = true := by decide +kernel" % (
+                    it["name"].replace("-/", "- /"), it["ident"], pred, it["ident"]))
+            cb += ["", "theorem %s_chunk%d_ok : %s_chunk%d.all (%s) = true := by" % (lean_id, k, lean_id, k, pred),
+                   "  simp only [%s_chunk%d, List.all_cons, List.all_nil, Bool.and_self, Bool.and_true%s]" % (
+                       lean_id, k, "".join(", %s_ok" % i for i in ids)),
+                   "", "end Tables", ""]
+            files[cmod + ".lean"] = "\n".join(cb)
             check_imports.append("import CoxeterVerif.Generated." + cmod)
         check_thms.append(
             "theorem %s_ok : %s.all (%s) = true := by\n  simp only [%s, List.all_append, %s, Bool.and_self]\n" % (
-                lean_id, lean_id, PREDICATE[lean_id], lean_id,
-                ", ".join("%s_ok" % c for c in chunk_ids)))
+                lean_id, lean_id, pred, lean_id, ", ".join("%s_ok" % c for c in chunk_ids)))
         index_defs.append("/-- `%s`, %d entries in file order -/\ndef %s : List Tab.Entry := %s\n" % (
-            fn, len(ents), lean_id, " ++ ".join(chunk_ids) if chunk_ids else "[]"))
+            fn, len(items), lean_id, " ++ ".join(chunk_ids) if chunk_ids else "[]"))
     # the index: whole tables, the file-name -> table map used by `source`, and the DOI maps
     from coxeter.families import doi_data_repositories as ddr
     to_file = ", ".join("(%s, [%s])" % (_lean_str(k), ", ".join(_lean_str(x) for x in v))
@@ -253,7 +286,8 @@ def generate(fams=None):
     files["Checks.lean"] = "\n".join(
         ["import CoxeterVerif.Generated.Tables"] + check_imports + [
             "/-! GENERATED by harness/c18.py translate() — do not edit.",
-            "    The chunk obligations assembled into one statement per table. -/", "namespace Tables", ""]
+            "    The chunk obligations assembled into one statement per table. -/",
+            "set_option linter.unusedSimpArgs false", "namespace Tables", ""]
         + check_thms + ["end Tables", ""])
     return files, notes, sizes
 
@@ -277,8 +311,10 @@ def translate(ctx):
             with open(p, "w") as f:
                 f.write(content)
             changed.append(fn)
-    for fn in os.listdir(GEN_DIR):  # stale chunks of a table that shrank
-        if fn.endswith(".lean") and fn not in files:
+    # stale chunks of a table that shrank.  ONLY files with this property's own prefixes are ever touched:
+    # other properties keep their generated files (e.g. Planes.lean of C17) in the same directory.
+    for fn in os.listdir(GEN_DIR):
+        if fn.endswith(".lean") and fn not in files and fn.startswith(OWN_PREFIXES):
             os.unlink(os.path.join(GEN_DIR, fn))
             changed.append(fn)
     digest = _digest(files)
@@ -288,3 +324,713 @@ def translate(ctx):
     ctx.extra["generated"] = {"files": len(files), "rewritten": sorted(changed), "sha1": digest, "sizes": sizes,
                               "notes": notes[:20]}
     ctx._c18_digest = digest
+
+
+# ------------------------------------------------------------------------------------------ oracle helpers
+
+TOL = 1e-9
+CLASS_NAME = {"platonic": "PlatonicFamily", "archimedean": "ArchimedeanFamily", "catalan": "CatalanFamily",
+              "johnson": "JohnsonFamily", "prismAntiprism": "PrismAntiprismFamily",
+              "pyramidDipyramid": "PyramidDipyramidFamily", "science1220869": "DOI_SHAPE_REPOSITORIES[science1220869]"}
+FILE_TO_ID = {fn: lean_id for lean_id, fn, _ in TABLES}
+WHICH = {"platonic": 0, "archimedean": 1, "catalan": 2, "johnson": 3}
+
+
+def s2codes(s):
+    return L([ord(ch) for ch in s])
+
+
+def entry_tokens(verts_int, faces):
+    return [L([[int(c) for c in v] for v in verts_int]), L([L([int(i) for i in f]) for f in faces])]
+
+
+def _quiet(fn, *a):
+    with warnings.catch_warnings():
+        warnings.simplefilter("ignore")
+        return fn(*a)
+
+
+def _near(metric, tol):
+    """(decision, near_boundary): decision = metric <= tol; near when within a decade of the tolerance"""
+    return bool(metric <= tol), bool(0.1 * tol < metric < 10 * tol)
+
+
+def cert_predicates(v, faces):
+    """The predicates of Spec/Textbook.lean in floating point on the SAME data (vertices, face certificate).
+    -> ({name: bool}, {name: near_boundary}, info)"""
+    v = np.asarray(v, dtype=float)
+    n = len(v)
+    idx = [i for f in faces for i in f]
+    out, near = {}, {}
+    in_range = all(0 <= i < n for i in idx)
+    out["uses"] = bool(n <= 4096 and in_range and set(idx) == set(range(n)))
+    edges = [(f[i], f[(i + 1) % len(f)]) for f in faces for i in range(len(f))]
+    cnt = {}
+    for e in edges:
+        cnt[e] = cnt.get(e, 0) + 1
+    out["closed"] = bool(all(len(f) >= 3 for f in faces) and all(a != b for a, b in edges)
+                         and all(c == 1 for c in cnt.values()) and all(cnt.get((b, a), 0) == 1 for a, b in edges))
+    out["euler"] = bool(2 * n + 2 * len(faces) == len(edges) + 4)
+    info = {"V": n, "E2": len(edges), "F": len(faces)}
+    if not in_range or not faces:
+        for k in ("convex", "posvol", "unitvol", "edges", "diagonals", "insphere"):
+            out[k] = None
+        return out, near, info
+    worst = 0.0
+    convex = True
+    normals = []
+    for f in faces:
+        p = v[f]
+        nv = np.zeros(3)
+        for i in range(len(f)):
+            nv += np.cross(p[i], p[(i + 1) % len(f)])
+        nn = np.linalg.norm(nv)
+        normals.append((nv, nn, p[0]))
+        if nn == 0:
+            convex = False
+            continue
+        d_all = (v - p[0]) @ nv / nn
+        d_face = np.abs((p - p[0]) @ nv / nn)
+        worst = max(worst, float(d_all.max()), float(d_face.max()))
+    ok, nb = _near(worst, TOL)
+    out["convex"], near["convex"] = bool(convex and ok), nb
+    vol6 = 0.0
+    cnum = np.zeros(3)
+    for f in faces:
+        p = v[f]
+        for i in range(1, len(f) - 1):
+            d = float(np.linalg.det(np.array([p[0], p[i], p[i + 1]])))
+            vol6 += d
+            cnum += d * (p[0] + p[i] + p[i + 1])
+    info["vol6"] = vol6
+    out["posvol"] = bool(vol6 > 0)
+    near["posvol"] = bool(abs(vol6) < 1e-7)
+    out["unitvol"], near["unitvol"] = _near(abs(vol6 / 6 - 1), TOL)
+
+    def all_near_first(ls):
+        if not ls or ls[0] <= 0:
+            return False, False
+        m = max(abs(l - ls[0]) for l in ls) / ls[0]
+        return _near(m, 2 * TOL)
+
+    out["edges"], near["edges"] = all_near_first([float(np.sum((v[a] - v[b]) ** 2)) for a, b in edges])
+    dg, dgn = True, False
+    for f in faces:
+        if len(f) <= 3:
+            continue
+        k = len(f)
+        o, nb = all_near_first([float(np.sum((v[f[i]] - v[f[(i + 2) % k]]) ** 2)) for i in range(k)])
+        dg, dgn = dg and o, dgn or nb
+    out["diagonals"], near["diagonals"] = dg, dgn
+    if vol6 > 0:
+        c = cnum / (4 * vol6)
+        hs = [float(np.dot(nv, p0 - c) / nn) if nn > 0 else -1.0 for nv, nn, p0 in normals]
+        if min(hs) > 0:
+            m = max(abs(h * h - hs[0] * hs[0]) for h in hs) / (hs[0] * hs[0])
+            out["insphere"], near["insphere"] = _near(m, 2 * TOL)
+        else:
+            out["insphere"], near["insphere"] = False, False
+    else:
+        out["insphere"], near["insphere"] = False, False
+    return out, near, info
+
+
+def hull_facts(v):
+    """Independent facts about conv(v) from scipy's Qhull wrapper (nothing of coxeter involved):
+    V (extreme points), E, F, census, volume, edge lengths, per-face regularity defect, in-radius spread."""
+    v = np.asarray(v, dtype=float)
+    hull = ConvexHull(v)
+    groups = []
+    for simp, eq in zip(hull.simplices, hull.equations):
+        for g in groups:
+            if np.all(np.abs(g["eq"] - eq) < 1e-9):
+                g["simps"].append(simp)
+                break
+        else:
+            groups.append({"eq": eq, "simps": [simp]})
+    edges = set()
+    census = {}
+    reg_defect = 0.0
+    # centroid of the solid from the hull's own tetrahedra (apex = interior point)
+    o = v.mean(axis=0)
+    tv, tc = 0.0, np.zeros(3)
+    for simp in hull.simplices:
+        a, b, c = v[simp]
+        d = abs(float(np.linalg.det(np.array([a - o, b - o, c - o]))))
+        tv += d
+        tc += d * (a + b + c + o) / 4
+    cen = tc / tv
+    heights = []
+    for g in groups:
+        ec = {}
+        for s in g["simps"]:
+            for i in range(3):
+                e = tuple(sorted((int(s[i]), int(s[(i + 1) % 3]))))
+                ec[e] = ec.get(e, 0) + 1
+        boundary = [e for e, c in ec.items() if c == 1]
+        edges.update(boundary)
+        k = len(boundary)
+        census[k] = census.get(k, 0) + 1
+        fv = sorted(set(i for e in boundary for i in e))
+        pts = v[fv]
+        fc = pts.mean(axis=0)
+        r = np.linalg.norm(pts - fc, axis=1)
+        sl = np.array([np.linalg.norm(v[a] - v[b]) for a, b in boundary])
+        # regular polygon <=> equal sides and all corners at one distance from the face centre
+        reg_defect = max(reg_defect, float((r.max() - r.min()) / r.mean()), float((sl.max() - sl.min()) / sl.mean()))
+        nrm, off = g["eq"][:3], g["eq"][3]
+        heights.append(-(float(np.dot(nrm, cen)) + float(off)))
+    el = np.array([np.linalg.norm(v[a] - v[b]) for a, b in edges])
+    heights = np.array(heights)
+    return {"V": int(len(hull.vertices)), "E": len(edges), "F": len(groups), "census": census,
+            "volume": float(hull.volume), "edge_spread": float((el.max() - el.min()) / el.mean()),
+            "reg_defect": reg_defect,
+            "inradius_spread": float((heights.max() - heights.min()) / abs(heights.mean())),
+            "inradius_min": float(heights.min())}
+
+
+def same_point_set(a, b, tol=TOL):
+    a, b = np.asarray(a, float), np.asarray(b, float)
+    if a.shape != b.shape:
+        return False
+    d = np.linalg.norm(a[:, None, :] - b[None, :, :], axis=2)
+    return bool(np.all(d.min(axis=1) <= tol) and np.all(d.min(axis=0) <= tol))
+
+
+# ------------------------------------------------------------------------------------------ per-entry check
+
+LEAN_KEYS = ["uses", "uses_ref", "closed", "closed_ref", "euler", "convex", "convex_ref", "posvol", "unitvol",
+             "edges", "diagonals", "insphere", "polyhedron"]
+
+
+def lean_check(ctx, verts_int, faces):
+    r = ctx.driver.Q("c18.check", *entry_tokens(verts_int, faces))
+    d = dict(zip(LEAN_KEYS, r[:13]))
+    d["V"], d["E2"], d["F"], d["vol6"] = r[13], r[14], r[15], r[16]
+    d["census"] = r[17:30]
+    return d
+
+
+def compare_lean_float(ctx, case, lean, fl, near, what="c18.check"):
+    """B: the Lean predicates (exact integers) against the same predicates in floating point"""
+    for a, b in (("uses", "uses_ref"), ("closed", "closed_ref"), ("convex", "convex_ref")):
+        if lean[a] != lean[b]:
+            ctx.disagree(what + ":fast-vs-reference:" + a, case, [lean[a], lean[b]])
+    for k in ("uses", "closed", "euler", "convex", "posvol", "unitvol", "edges", "diagonals", "insphere"):
+        if fl.get(k) is None:
+            continue
+        if near.get(k):
+            ctx.skipped_near_boundary += 1
+            continue
+        if bool(lean[k]) != bool(fl[k]):
+            ctx.disagree(what + ":" + k, case, {"lean": lean[k], "float": fl[k]})
+
+
+def eval_entry(ctx, tables_json, entries, fams, lean_id, name):
+    """all clauses of the property for one entry; returns nothing, reports through ctx"""
+    case = {"table": lean_id, "name": name, "kind": "entry"}
+    fam = fams[lean_id]
+    cls = CLASS_NAME[lean_id]
+    rec = tables_json[lean_id + ":dict"].get(name)
+    if rec is None:
+        ctx.fail("TabulatedGSDShapeFamily.names:not-in-file:" + lean_id, "%s lists a name that is not a key of the JSON "
+                 "file" % cls, case, name)
+        return
+    item = next(it for it in entries[lean_id] if it["name"] == name)
+    jv = np.array([[float(c) for c in row] for row in rec["vertices"]], dtype=float)
+    try:
+        shape = _quiet(fam.get_shape, name)
+    except Exception as e:
+        ctx.fail("TabulatedGSDShapeFamily.get_shape:raises:" + lean_id, "%s.get_shape(%r) raised %s" % (
+            cls, name, exc_kind(e)), case, repr(e))
+        return
+    if type(shape).__name__ != "ConvexPolyhedron":
+        ctx.fail("TabulatedGSDShapeFamily.get_shape:not-ConvexPolyhedron:" + lean_id, "%s.get_shape(%r) is a %s" % (
+            cls, name, type(shape).__name__), case, type(shape).__name__)
+        return
+    sv = np.asarray(shape.vertices, dtype=float)
+    if sv.shape != jv.shape or not np.array_equal(sv, jv):
+        ctx.fail("TabulatedGSDShapeFamily.get_shape:vertices-differ-from-record:" + lean_id,
+                 "%s.get_shape(%r) does not have the vertices stored under that name" % (cls, name), case,
+                 {"shape": list(sv.shape), "record": list(jv.shape),
+                  "maxdiff": float(np.abs(sv - jv).max()) if sv.shape == jv.shape else None})
+    faces = [[int(i) for i in f] for f in shape.faces]
+    ctx.count("table:" + lean_id)
+    ctx.count("vertices:%s" % ("<=12" if len(sv) <= 12 else "<=30" if len(sv) <= 30 else "<=60" if len(sv) <= 60
+                               else ">60"))
+
+    # ---- B: Lean predicates on (JSON integers, implementation's faces) vs the same in floating point
+    lean = lean_check(ctx, item["verts"], faces)
+    fl, near, info = cert_predicates(jv, faces)
+    compare_lean_float(ctx, case, lean, fl, near)
+    if (lean["V"], lean["E2"], lean["F"]) != (info["V"], info["E2"], info["F"]):
+        ctx.disagree("c18.check:counts", case, [lean["V"], lean["E2"], lean["F"], info])
+    if "vol6" in info and not ctx.close_enough(lean["vol6"] / 1e54, info["vol6"], 6.0):
+        ctx.disagree("c18.check:vol6", case, [lean["vol6"] / 1e54, info["vol6"]])
+    r = ctx.driver.Q("c18.table", WHICH.get(lean_id, 4), s2codes(name), *entry_tokens(item["verts"], faces))
+    lean_table_ok, lean_textbook_ok = r[0], r[1]
+    # the certificate clause itself (this is what the kernel proves per entry)
+    if not lean["polyhedron"]:
+        ctx.fail("TabulatedGSDShapeFamily.get_shape:not-closed-convex-surface:" + lean_id,
+                 "the faces %s builds for %r are not a closed oriented convex surface on exactly the entry's vertices "
+                 "(uses=%s closed=%s euler=%s convex=%s vol>0=%s)" % (cls, name, lean["uses"], lean["closed"],
+                                                                       lean["euler"], lean["convex"], lean["posvol"]),
+                 case, {k: lean[k] for k in LEAN_KEYS})
+
+    # ---- C: independent facts about the implementation's shape
+    try:
+        hf = hull_facts(sv)
+    except Exception as e:
+        ctx.fail("TabulatedGSDShapeFamily.get_shape:degenerate:" + lean_id, "the vertices of %r have no 3-D hull" % name,
+                 case, repr(e))
+        return
+    if hf["V"] != len(sv) or (hf["V"], 2 * hf["E"], hf["F"]) != (lean["V"], lean["E2"], lean["F"]) \
+            or (shape.num_vertices, shape.num_edges, shape.num_faces) != (hf["V"], hf["E"], hf["F"]):
+        ctx.fail("TabulatedGSDShapeFamily.get_shape:not-closed-convex-surface:" + lean_id,
+                 "vertex/edge/face structure of %s[%r] differs from the convex hull of its vertices" % (cls, name), case,
+                 {"hull": [hf["V"], hf["E"], hf["F"]], "faces": [lean["V"], lean["E2"] // 2, lean["F"]],
+                  "reported": [shape.num_vertices, shape.num_edges, shape.num_faces], "stored": len(sv)})
+    if lean_id in UNITVOL:
+        tb = TEXTBOOK[lean_id].get(name)
+        if tb is None:
+            ctx.fail("TabulatedGSDShapeFamily.names:not-a-textbook-solid:" + lean_id,
+                     "%r is not one of the %d %s solids" % (name, len(TEXTBOOK[lean_id]), lean_id), case, name)
+        else:
+            got = (hf["V"], hf["E"], hf["F"], {k: c for k, c in hf["census"].items()})
+            cert = (lean["V"], lean["E2"] // 2, lean["F"], {k: c for k, c in enumerate(lean["census"]) if c})
+            if got != tb or cert != tb:
+                ctx.fail("TabulatedGSDShapeFamily.get_shape:textbook-counts:" + lean_id,
+                         "%s[%r] does not have the textbook vertex/edge/face counts" % (cls, name), case,
+                         {"textbook": tb, "hull": got, "faces": cert})
+            if bool(lean_textbook_ok) != (cert == tb):
+                ctx.disagree("c18.table:textbook", case, [lean_textbook_ok, cert, tb])
+        vols = (hf["volume"], float(shape.volume), lean["vol6"] / 6e54)
+        if any(abs(x - 1) > TOL for x in vols):
+            ctx.fail("TabulatedGSDShapeFamily.get_shape:unit-volume:" + lean_id,
+                     "%s[%r] does not have unit volume" % (cls, name), case, list(vols))
+    if lean_id in REGULAR:
+        if hf["edge_spread"] > TOL or not lean["edges"]:
+            ctx.fail("TabulatedGSDShapeFamily.get_shape:equal-edges:" + lean_id,
+                     "%s[%r] does not have equal edge lengths" % (cls, name), case, [hf["edge_spread"], lean["edges"]])
+        if hf["reg_defect"] > TOL or not (lean["edges"] and lean["diagonals"] and lean["convex"]):
+            ctx.fail("TabulatedGSDShapeFamily.get_shape:regular-faces:" + lean_id,
+                     "%s[%r] has a face that is not a regular polygon" % (cls, name), case,
+                     [hf["reg_defect"], lean["edges"], lean["diagonals"]])
+    if lean_id == "catalan":
+        if hf["inradius_spread"] > TOL or hf["inradius_min"] <= 0 or not lean["insphere"]:
+            ctx.fail("TabulatedGSDShapeFamily.get_shape:insphere:catalan",
+                     "CatalanFamily[%r] has no insphere (face planes not at one distance from the centroid)" % name,
+                     case, [hf["inradius_spread"], lean["insphere"]])
+    # per-table obligation as the kernel sees it must agree with the pieces
+    want = bool(lean["polyhedron"])
+    if lean_id in ("platonic", "archimedean"):
+        want = want and bool(lean_textbook_ok) and bool(lean["unitvol"]) and bool(lean["edges"] and lean["diagonals"])
+    elif lean_id == "catalan":
+        want = want and bool(lean_textbook_ok) and bool(lean["unitvol"]) and bool(lean["insphere"])
+    elif lean_id == "johnson":
+        want = want and bool(lean["edges"] and lean["diagonals"])
+    if bool(lean_table_ok) != want:
+        ctx.disagree("c18.table:obligation", case, [lean_table_ok, want])
+
+    # ---- repository entries that cite a family
+    if lean_id == "science1220869":
+        src = rec.get("source")
+        if src:
+            ctx.count("science:cites:" + str(src))
+            sid = FILE_TO_ID.get(src)
+            ref = rec.get("name")
+            ok = False
+            detail = None
+            if sid is None or sid == "science1220869" or ref not in fams[sid].names:
+                detail = "cited entry %r of %r does not exist" % (ref, src)
+            else:
+                other = _quiet(fams[sid].get_shape, ref)
+                ok = same_point_set(sv, other.vertices)
+                oitem = next(it for it in entries[sid] if it["name"] == ref)
+                lsame = ctx.driver.Q("c18.same", L([list(p) for p in item["verts"]]), L([list(p) for p in oitem["verts"]]))[0]
+                ojv = np.array([[float(c) for c in row] for row in tables_json[sid + ":dict"][ref]["vertices"]])
+                if bool(lsame) != same_point_set(jv, ojv):   # B: same records on both sides
+                    ctx.disagree("c18.same", case, [lsame, same_point_set(jv, ojv)])
+                detail = "vertex sets differ"
+            if not ok:
+                ctx.fail("DOI_SHAPE_REPOSITORIES.get_shape:cited-family-entry:science1220869",
+                         "repository entry %r cites %r of %s but does not coincide with it" % (name, ref, src), case,
+                         detail)
+        else:
+            ctx.count("science:no-source")
+
+
+# ------------------------------------------------------------------------------------------ family-level checks
+
+
+def eval_family(ctx, tables_json, fams, lean_id):
+    """names (count, file order, no repeats) and iteration (every name once, in order, same shape as get_shape)"""
+    fam = fams[lean_id]
+    cls = CLASS_NAME[lean_id]
+    case = {"table": lean_id, "kind": "family"}
+    names = list(fam.names)
+    file_names = [n for n, _ in tables_json[lean_id]]
+    if len(names) != EXPECTED_SIZES[lean_id]:
+        ctx.fail("TabulatedGSDShapeFamily.names:count:" + lean_id, "%s has %d entries, the property says %d" % (
+            cls, len(names), EXPECTED_SIZES[lean_id]), case, len(names))
+    if len(set(names)) != len(names) or len(set(file_names)) != len(file_names):
+        ctx.fail("TabulatedGSDShapeFamily.names:repeated:" + lean_id, "%s lists a name twice" % cls, case,
+                 [n for n in names if names.count(n) > 1][:5])
+    if names != file_names:
+        ctx.fail("TabulatedGSDShapeFamily.names:file-order:" + lean_id,
+                 "%s.names is not the key order of the JSON file" % cls, case,
+                 [a for a, b in zip(names, file_names) if a != b][:5])
+    try:
+        it = _quiet(lambda: list(iter(fam)))
+    except Exception as e:
+        ctx.fail("TabulatedGSDShapeFamily.__iter__:raises:" + lean_id, "iterating %s raised %s" % (cls, exc_kind(e)),
+                 case, repr(e))
+        return
+    it_names = [k for k, _ in it]
+    if it_names != names:
+        ctx.fail("TabulatedGSDShapeFamily.__iter__:names-once-in-order:" + lean_id,
+                 "iter(%s) does not yield every name once in the order of names" % cls, case,
+                 {"yielded": len(it_names), "names": len(names),
+                  "first_difference": next(([a, b] for a, b in zip(it_names, names) if a != b), None)})
+    for k, shp in it:
+        try:
+            ref = _quiet(fam.get_shape, k)
+            same = (type(shp) is type(ref)) and np.array_equal(np.asarray(shp.vertices), np.asarray(ref.vertices))
+        except Exception as e:
+            same = False
+        if not same:
+            ctx.fail("TabulatedGSDShapeFamily.__iter__:same-shape-as-get_shape:" + lean_id,
+                     "iter(%s) yields a different shape for %r than get_shape" % (cls, k),
+                     {"table": lean_id, "name": k, "kind": "family"}, k)
+            break
+    # B: the model's iteration over the same keys
+    recs = L([])  # placeholder (see model_family)
+    m_names, m_iter, _ = model_family(ctx, [(n, "ConvexPolyhedron", False) for n in file_names], "")
+    if m_names != file_names or [i for _, (c, i) in m_iter] != list(range(len(file_names))) \
+            or any(c != 0 for _, (c, i) in m_iter):
+        ctx.disagree("c18.family:iter", case, "model iteration differs from the file order")
+    if it_names == names and names == file_names and m_names != it_names:
+        ctx.disagree("c18.family:iter-vs-impl", case, [m_names[:3], it_names[:3]])
+
+
+def model_family(ctx, records, query):
+    """records: [(name, type or None, rounding)] -> (names, [(name, (class, payload|kind))], query result)"""
+    toks = [len(records)]
+    for name, typ, rounding in records:
+        toks += [s2codes(name), 1 if typ is not None else 0, s2codes(typ or ""), 1 if rounding else 0]
+    r = ctx.driver.Q("c18.family", *toks, s2codes(query))
+    pos = [0]
+
+    def take():
+        x = r[pos[0]]
+        pos[0] += 1
+        return x
+
+    def take_str():
+        n = take()
+        return "".join(chr(take()) for _ in range(n))
+
+    def take_shape():
+        c = take()
+        if c == -1:
+            return (-1, take_str())
+        return (c, take())
+
+    n = take()
+    it = []
+    for _ in range(n):
+        k = take_str()
+        it.append((k, take_shape()))
+    q = take_shape()
+    return [k for k, _ in it], it, q
+
+
+def impl_class_code(fn):
+    try:
+        s = _quiet(fn)
+    except Exception as e:
+        return (-1, exc_kind(e))
+    nm = type(s).__name__
+    return (0 if nm == "ConvexPolyhedron" else 1 if nm == "ConvexSpheropolyhedron" else 2, nm)
+
+
+def unknown_name_probes(ctx, fams, lean_id):
+    fam = fams[lean_id]
+    names = list(fam.names)
+    rng = ctx.rng
+    probes = ["", "No Such Solid", names[0].lower(), names[0] + " ", " " + names[-1], names[0][:-1], "cube", "P00",
+              "J93", "0", names[-1].upper()]
+    for _ in range(ctx.budget(6, 60)):
+        n = int(rng.integers(1, 12))
+        probes.append("".join(chr(int(c)) for c in rng.integers(32, 127, size=n)))
+    for q in probes:
+        if q in names:
+            continue
+        case = {"table": lean_id, "name": q, "kind": "unknown-name"}
+        ctx.case(case, nontrivial=False)
+        ctx.count("probe:unknown-name")
+        got = impl_class_code(lambda: fam.get_shape(q))
+        if got != (-1, "KeyError"):
+            ctx.fail("TabulatedGSDShapeFamily.get_shape:unknown-name-no-KeyError:" + lean_id,
+                     "%s.get_shape(%r) did not raise KeyError" % (CLASS_NAME[lean_id], q), case, list(got))
+        _, _, mq = model_family(ctx, [(n, "ConvexPolyhedron", False) for n in names], q)
+        if mq != (-1, "KeyError") or (got[0] == -1 and got[1] != mq[1]):
+            ctx.disagree("c18.family:unknown-name", case, [list(mq), list(got)])
+
+
+def synthetic_family(ctx):
+    """B for get_shape/__iter__/from_gsd_type_shapes on families built here (classes and error kinds)"""
+    from coxeter.families import TabulatedGSDShapeFamily
+    cube = [[x, y, z] for x in (0, 1) for y in (0, 1) for z in (0, 1)]
+    tet = [[0, 0, 0], [1, 0, 0], [0, 1, 0], [0, 0, 1]]
+    pool = [
+        ("poly", {"type": "ConvexPolyhedron", "vertices": cube, "extra": 1}, ("ConvexPolyhedron", False)),
+        ("round", {"type": "ConvexPolyhedron", "vertices": tet, "rounding_radius": 0.25}, ("ConvexPolyhedron", True)),
+        ("ball", {"type": "Sphere", "diameter": 2.0}, ("Sphere", False)),
+        ("egg", {"type": "Ellipsoid", "a": 1.0, "b": 2.0, "c": 3.0}, ("Ellipsoid", False)),
+        ("mesh", {"type": "Mesh", "vertices": tet, "indices": [[0, 2, 1], [0, 1, 3], [0, 3, 2], [1, 2, 3]]},
+         ("Mesh", False)),
+        ("untyped", {"vertices": cube}, (None, False)),
+        ("foo", {"type": "Foo", "vertices": cube}, ("Foo", False)),
+        ("lower", {"type": "convexpolyhedron", "vertices": cube}, ("convexpolyhedron", False)),
+    ]
+    for _ in range(ctx.budget(4, 40)):
+        k = int(ctx.rng.integers(1, len(pool) + 1))
+        pick = [pool[i] for i in ctx.rng.permutation(len(pool))[:k]]
+        data = {n: d for n, d, _ in pick}
+        fam = TabulatedGSDShapeFamily(data)
+        recs = [(n, t[0], t[1]) for n, _, t in pick]
+        q = [n for n, _, _ in pool][int(ctx.rng.integers(0, len(pool)))]
+        case = {"kind": "synthetic-family", "records": [n for n, _, _ in pick], "query": q}
+        ctx.case(case)
+        ctx.count("probe:synthetic-family")
+        m_names, m_iter, m_q = model_family(ctx, recs, q)
+        if m_names != list(fam.names):
+            ctx.disagree("c18.family:names", case, [m_names, list(fam.names)])
+        for (k_, (mc, mp)) in m_iter:
+            got = impl_class_code(lambda: fam.get_shape(k_))
+            if (mc, mp if mc == -1 else None) != (got[0], got[1] if got[0] == -1 else None):
+                ctx.disagree("c18.family:get_shape-class", case, [k_, [mc, mp], list(got)])
+        got = impl_class_code(lambda: fam.get_shape(q))
+        if (m_q[0], m_q[1] if m_q[0] == -1 else None) != (got[0], got[1] if got[0] == -1 else None):
+            ctx.disagree("c18.family:query", case, [q, list(m_q), list(got)])
+
+
+def doi_probes(ctx):
+    from coxeter import families as cf
+    from coxeter.families import doi_data_repositories as ddr
+    to_file = {k: list(v) for k, v in ddr._DOI_TO_FILE.items()}
+    to_fam = {k: [c.__name__ for c in v] for k, v in ddr._DOI_TO_FAMILY.items()}
+    known = list(to_file) + [k for k in to_fam if k not in to_file]
+    unknown = ["", "10.0000/nothing", DOI + " ", DOI.upper() if DOI.upper() != DOI else DOI + "x", DOI[:-1],
+               "science1220869", "10.1126/science.1220869.json", "doi:" + DOI]
+    for _ in range(ctx.budget(5, 50)):
+        n = int(ctx.rng.integers(1, 25))
+        unknown.append("".join(chr(int(c)) for c in ctx.rng.integers(33, 127, size=n)))
+    unknown = [u for u in unknown if u not in known]
+    # sequence through ONE fresh dictionary (the module-level one is left alone): unknown, known, unknown, known again
+    seq = []
+    for i, u in enumerate(unknown):
+        seq.append(u)
+        if i < len(known):
+            seq.append(known[i])
+    seq += known + unknown[:2]
+    d = cf._KeyedDefaultDict(cf._doi_shape_collection_factory)
+    impl = []
+    for key in seq:
+        case = {"kind": "doi", "key": key}
+        ctx.case(case, nontrivial=key in known)
+        ctx.count("probe:doi-known" if key in known else "probe:doi-unknown")
+        try:
+            v = _quiet(lambda: d[key])
+            items = [(0, "file") if type(x).__name__ == "TabulatedGSDShapeFamily" else (1, type(x).__name__) for x in v]
+            impl.append((0, items, len(d)))
+            if key not in known:
+                ctx.fail("DOI_SHAPE_REPOSITORIES.__getitem__:unknown-doi-no-KeyError",
+                         "an unknown DOI %r did not raise KeyError" % key, case, repr(v)[:200])
+            elif not items or d[key] is not v:
+                ctx.fail("DOI_SHAPE_REPOSITORIES.__getitem__:known-doi", "a known DOI gives no families or is not "
+                         "cached", case, key)
+        except Exception as e:
+            impl.append((1, exc_kind(e), len(d)))
+            if key in known:
+                ctx.fail("DOI_SHAPE_REPOSITORIES.__getitem__:known-doi", "known DOI %r raised %s" % (key, exc_kind(e)),
+                         case, repr(e))
+            elif exc_kind(e) != "KeyError":
+                ctx.fail("DOI_SHAPE_REPOSITORIES.__getitem__:unknown-doi-no-KeyError",
+                         "unknown DOI %r raised %s, not KeyError" % (key, exc_kind(e)), case, repr(e))
+            elif key in d:
+                ctx.fail("DOI_SHAPE_REPOSITORIES.__getitem__:unknown-doi-stored",
+                         "a failed lookup of %r left a key in the dictionary" % key, case, key)
+    # the module-level object answers the same way for an unknown key
+    try:
+        cf.DOI_SHAPE_REPOSITORIES["10.0000/nothing"]
+        ctx.fail("DOI_SHAPE_REPOSITORIES.__getitem__:unknown-doi-no-KeyError", "DOI_SHAPE_REPOSITORIES accepted an "
+                 "unknown DOI", {"kind": "doi", "key": "10.0000/nothing"}, "")
+    except KeyError:
+        pass
+    # B: the model through the same sequence
+    def mp(m):
+        return L([[s2codes(k), L([s2codes(x) for x in v])] for k, v in m.items()])
+    r = ctx.driver.Q("c18.doi", mp(to_file), mp(to_fam), L([s2codes(k) for k in seq]))
+    pos = 0
+    model = []
+    for _ in seq:
+        tag = r[pos]; pos += 1
+        if tag == 0:
+            n = r[pos]; pos += 1
+            items = []
+            for _ in range(n):
+                kind = r[pos]; pos += 1
+                ln = r[pos]; pos += 1
+                sname = "".join(chr(c) for c in r[pos:pos + ln]); pos += ln
+                items.append((0, "file") if kind == 0 else (1, sname))
+            size = r[pos]; pos += 1
+            model.append((0, items, size))
+        else:
+            ln = r[pos]; pos += 1
+            kind = "".join(chr(c) for c in r[pos:pos + ln]); pos += ln
+            size = r[pos]; pos += 1
+            model.append((1, kind, size))
+    if model != impl:
+        k = next(i for i, (a, b) in enumerate(zip(model, impl)) if a != b)
+        ctx.disagree("c18.doi", {"kind": "doi", "key": seq[k]}, {"model": repr(model[k]), "impl": repr(impl[k])})
+
+
+def textbook_copies(ctx):
+    """the two hand-entered copies (Spec/Textbook.lean, TEXTBOOK above) must agree"""
+    for which, lean_id in enumerate(("platonic", "archimedean", "catalan")):
+        r = ctx.driver.Q("c18.textbook", which)
+        pos = 1
+        rows = {}
+        for _ in range(r[0]):
+            ln = r[pos]; pos += 1
+            name = "".join(chr(c) for c in r[pos:pos + ln]); pos += ln
+            v, e, f, nc = r[pos:pos + 4]; pos += 4
+            cen = {}
+            for _ in range(nc):
+                cen[r[pos]] = r[pos + 1]; pos += 2
+            cons = r[pos]; pos += 1
+            rows[name] = (v, e, f, cen)
+            if not cons:
+                ctx.disagree("c18.textbook:inconsistent-row", {"kind": "textbook", "name": name}, [v, e, f, cen])
+        if rows != TEXTBOOK[lean_id]:
+            ctx.disagree("c18.textbook", {"kind": "textbook", "table": lean_id},
+                         sorted(set(rows) ^ set(TEXTBOOK[lean_id])) or
+                         [n for n in rows if rows[n] != TEXTBOOK[lean_id][n]])
+
+
+def mutant_certificates(ctx, entries, tables_json):
+    """corrupted certificates / vertices: the kernel-fast predicates must equal their reference definitions and the
+    floating point copy (the `false` side of the predicates, which the real tables never exercise)"""
+    rng = ctx.rng
+    pool = [(lid, it) for lid in entries for it in entries[lid] if it["faces"] and len(it["verts"]) <= 40]
+    n = ctx.budget(40, 600)
+    rejected = 0
+    for _ in range(n):
+        lid, it = pool[int(rng.integers(0, len(pool)))]
+        verts = [list(p) for p in it["verts"]]
+        faces = [list(f) for f in it["faces"]]
+        kind = ["swap", "reverse", "drop", "dup", "range", "move", "merge", "nudge"][int(rng.integers(0, 8))]
+        fi = int(rng.integers(0, len(faces)))
+        if kind == "swap":
+            f = faces[fi]
+            i, j = rng.choice(len(f), size=2, replace=False)
+            f[i], f[j] = f[j], f[i]
+        elif kind == "reverse":
+            faces[fi] = faces[fi][::-1]
+        elif kind == "drop":
+            del faces[fi]
+        elif kind == "dup":
+            faces.append(list(faces[fi]))
+        elif kind == "range":
+            faces[fi][0] = len(verts) + int(rng.integers(0, 3))
+        elif kind == "move":
+            vi = int(rng.integers(0, len(verts)))
+            s = float(rng.choice([-1, 1])) * 10.0 ** float(rng.uniform(-7, -2))
+            verts[vi] = [int(round(c * (1 + s))) for c in verts[vi]]
+        elif kind == "merge":
+            verts.append([0, 0, 0])          # an interior point that no face uses
+        elif kind == "nudge":
+            vi = int(rng.integers(0, len(verts)))
+            verts[vi] = [c + int(rng.integers(-500, 501)) for c in verts[vi]]   # 5e-16: far inside the tolerance
+        case = {"kind": "mutant", "table": lid, "name": it["name"], "mutation": kind, "verts": verts, "faces": faces}
+        ctx.case({"kind": "mutant", "table": lid, "name": it["name"], "mutation": kind, "face": fi})
+        ctx.count("mutant:" + kind)
+        lean = lean_check(ctx, verts, faces)
+        fl, near, _ = cert_predicates(np.array(verts, dtype=float) / SCALE, faces)
+        compare_lean_float(ctx, case, lean, fl, near, what="c18.check(mutant)")
+        if not lean["polyhedron"]:
+            rejected += 1
+        if kind == "nudge" and not lean["polyhedron"]:
+            ctx.disagree("c18.check(mutant):nudge-rejected", case, {k: lean[k] for k in LEAN_KEYS})
+        if kind in ("reverse", "drop", "dup", "range", "merge") and lean["polyhedron"]:
+            ctx.disagree("c18.check(mutant):accepted", case, kind)
+    ctx.count("mutant:rejected", rejected)
+
+
+# ------------------------------------------------------------------------------------------ run / replay
+
+
+def _load(ctx):
+    fams = _families()
+    tables_json, notes = read_json_tables()
+    for lean_id in list(tables_json):
+        tables_json[lean_id + ":dict"] = dict(tables_json[lean_id])
+    entries, _ = table_entries(fams)
+    return fams, tables_json, entries
+
+
+def run(ctx):
+    fams, tables_json, entries = _load(ctx)
+    textbook_copies(ctx)
+    for lean_id, fn, _ in TABLES:
+        eval_family(ctx, tables_json, fams, lean_id)
+        ctx.case({"table": lean_id, "kind": "family"})
+        for name in list(fams[lean_id].names):
+            ctx.case({"table": lean_id, "name": name, "kind": "entry"})
+            eval_entry(ctx, tables_json, entries, fams, lean_id, name)
+        # textbook solids that are missing from the table
+        if lean_id in TEXTBOOK:
+            for tname in TEXTBOOK[lean_id]:
+                if tname not in fams[lean_id].names:
+                    ctx.fail("TabulatedGSDShapeFamily.names:textbook-solid-missing:" + lean_id,
+                             "%s has no entry %r" % (CLASS_NAME[lean_id], tname),
+                             {"table": lean_id, "name": tname, "kind": "family"}, tname)
+        unknown_name_probes(ctx, fams, lean_id)
+    doi_probes(ctx)
+    synthetic_family(ctx)
+    mutant_certificates(ctx, entries, tables_json)
+    # the tables the Lean theorems of this build are about are the ones checked above
+    if not ctx.obligation_breaks and getattr(ctx, "_c18_digest", None):
+        os.makedirs(os.path.dirname(OK_MARK), exist_ok=True)
+        with open(OK_MARK, "w") as f:
+            f.write(ctx._c18_digest)
+
+
+def replay(ctx, payload):
+    case = payload.get("case", payload)
+    if isinstance(case, dict) and "broken" in payload and "case" not in payload:
+        case = {}
+    fams, tables_json, entries = _load(ctx)
+    kind = case.get("kind")
+    if kind == "entry" and case.get("table") in fams:
+        ctx.case(case)
+        eval_family(ctx, tables_json, fams, case["table"])
+        eval_entry(ctx, tables_json, entries, fams, case["table"], case["name"])
+    elif kind in ("family", "unknown-name") and case.get("table") in fams:
+        ctx.case(case)
+        eval_family(ctx, tables_json, fams, case["table"])
+        if kind == "family" and case.get("name") in list(fams[case["table"]].names):
+            eval_entry(ctx, tables_json, entries, fams, case["table"], case["name"])
+        unknown_name_probes(ctx, fams, case["table"])
+    elif kind == "doi":
+        ctx.case(case)
+        doi_probes(ctx)
+    elif kind == "mutant":
+        ctx.case({k: case[k] for k in case if k not in ("verts", "faces")})
+        lean = lean_check(ctx, case["verts"], case["faces"])
+        fl, near, _ = cert_predicates(np.array(case["verts"], dtype=float) / SCALE, case["faces"])
+        compare_lean_float(ctx, case, lean, fl, near, what="c18.check(mutant)")
+    else:
+        run(ctx)
